@@ -54,7 +54,7 @@ class C01(Prop):
                 res = post.get("res", "")
                 if res.startswith("panic"):
                     continue  # crash-freedom is C09's subject
-                lo = int(pre["min"]) + int(pre["off"])
+                lo = int(pre["min"]) + max(0, int(pre["off"]))   # the raises so far are never negative; the fan minimum itself is the floor
                 hi = int(pre["max"])
                 if op.startswith("w.calc") and res.startswith("i"):
                     t = int(res[1:])
